@@ -191,9 +191,11 @@ impl EncCall {
 }
 
 pub fn hex(b: &[u8]) -> String {
+    const D: &[u8; 16] = b"0123456789abcdef";
     let mut s = String::with_capacity(b.len() * 2);
     for x in b {
-        s.push_str(&format!("{:02x}", x));
+        s.push(D[(x >> 4) as usize] as char);
+        s.push(D[(x & 15) as usize] as char);
     }
     s
 }
